@@ -17,22 +17,25 @@ def cont_body(rng, total):
     return [ml >> 8, ml & 255, dl >> 8, dl & 255, 0] + msg + data
 
 
-def crypt_scenario(rng, idx, big):
+MID = [4095, 4096, 4097, 4111, 4112, 4113, 8191, 8192, 8193, 12289, 16383, 16384, 16385, 20000]
+
+
+def crypt_scenario(rng, idx, big, mid=None):
     key = [rng.randint(0, 255) for _ in range(rng.choice([0, 1, 6, 13, 16, 51, 70]))]
     if rng.random() < 0.2:
         key = list(b"fooman")
     pk = []
     seq = rng.choice([1, 1, 1, 3, 5, 127, 251, 253])
-    for j in range(rng.randint(1, 2)):
-        ty = rng.choice([1, 1, 1, 2, 3])
+    for j in range(2 if (big or mid) else rng.randint(1, 2)):
+        ty = 1 if (big or mid) else rng.choice([1, 1, 1, 2, 3])
         fl = rng.randint(0, 255)
         fl = (fl & 0xfe) if rng.random() < 0.8 else (fl | 1)
         p = {"sid": rng.randint(0, 3), "seq": seq, "ty": ty, "min": rng.randint(0, 1), "fl": fl, "rd": "ok",
              "ops": ["next", "reply"], "bv": 0}
         if ty == 1:
-            total = 65536 if (big and j == 0) else max(5, rng.choice(BOUND))
+            total = 65536 if (big and j == 0) else (mid if (mid and j == 0) else max(5, rng.choice(BOUND)))
             p["body"] = cont_body(rng, total)
-        p["rsz"] = (65536 if (big and j == 1) else max(6, rng.choice(BOUND)))
+        p["rsz"] = (65536 if (big and j == 1) else (mid + 1 if (mid and j == 1) else max(6, rng.choice(BOUND))))
         p["rst"] = 3 if ty == 1 else 1
         pk.append(p)
         seq += 2
@@ -49,6 +52,9 @@ def run(ctx, prop):
     r0 = ctx.tlc_ok("MC_Crypt", cfg="MC_Crypt.cfg")
     nscen, nbig, ncli = (250, 1, 250) if quick else (4000, 6, 3000)
     scen = [crypt_scenario(rng, i, i < nbig) for i in range(nscen)]
+    # bodies and replies of several thousand octets (beyond any plausible internal chunk size), request and reply direction
+    mids = rng.sample(MID, 5) if quick else MID * 3
+    scen += [crypt_scenario(rng, nscen + i, False, mid=m) for i, m in enumerate(mids)]
     sfile = ctx.path("scen.ndjson")
     with open(sfile, "w") as f:
         for s in scen:
